@@ -5,7 +5,32 @@
 
 package protocol
 
-import "github.com/enfein/mieru/v3/pkg/protocol/serveruser"
+import (
+	"net"
+
+	"github.com/enfein/mieru/v3/pkg/protocol/serveruser"
+)
 
 // VerifServerRegistry returns the server user registry of a server mux (for its counters).
 func VerifServerRegistry(m *Mux) *serveruser.Registry { return &m.serverUsers }
+
+// VerifSessionRegistered reports whether the session behind a net.Conn produced by Mux.Accept is
+// still in its underlay's session table (a closed session stays there until the underlay's next
+// cleaning round; until then a packet underlay still tries its cipher on incoming datagrams).
+func VerifSessionRegistered(conn net.Conn) bool {
+	s, ok := conn.(*Session)
+	if !ok || s == nil {
+		return false
+	}
+	var b *baseUnderlay
+	switch u := s.conn.(type) {
+	case *PacketUnderlay:
+		b = &u.baseUnderlay
+	case *StreamUnderlay:
+		b = &u.baseUnderlay
+	default:
+		return false
+	}
+	v, found := b.sessionMap.Load(s.id)
+	return found && v == any(s)
+}
